@@ -6099,7 +6099,9 @@ class SSHServerConnection(SSHConnection):
             self.logger.debug1('Invalid host-based auth signature')
             return False
 
-        result = self._owner.validate_host_based_user(username, client_host,
+        # Ask about the host the key was validated for, which is not the
+        # host named by the client unless that name is trusted
+        result = self._owner.validate_host_based_user(username, resolved_host,
                                                       client_username)
 
         if inspect.isawaitable(result):
